@@ -12,7 +12,7 @@
 From Coq Require Import ZArith QArith String List Lia Lqa.
 From QS Require Import theories.Num theories.Position theories.Portfolio theories.Fees theories.Broker theories.Clock
   theories.Sizer theories.PCM theories.Backtest theories.Spec proofs.Ledger proofs.PcmProofs proofs.BacktestProofs
-  proofs.Refinement proofs.SpecBroker proofs.SpecRun proofs.SpecProgress.
+  proofs.Refinement proofs.SpecBroker proofs.SpecRun proofs.SpecProgress proofs.SpecRows.
 Import ListNotations.
 Open Scope Z_scope.
 
@@ -53,6 +53,26 @@ Theorem backtest_matches_rules_on_quoted_markets :
       pending_of (ss_broker s_end) = st_pending st.
 Proof. exact backtest_refines_spec_quoted. Qed.
 Print Assumptions backtest_matches_rules_on_quoted_markets.
+
+(** Beyond fixed weights: for EVERY alpha model of the session model (fixed, universe-driven,
+    top-N momentum, SMA trend), static or dynamic universe, with or without signals - whatever
+    produced the target allocations, the fills, the equity and the final state are what the rules
+    compute from the allocation rows the session recorded, each row consumed by exactly one scheduled
+    rebalance, in order, none left over. *)
+Theorem every_session_follows_the_rules_from_its_allocations :
+  forall cfg market tr,
+    wf_alpha cfg ->
+    run cfg market = Ok tr -> tr_noerr tr ->
+    exists sched s_end st days,
+      schedule_of cfg = Ok sched /\ end_state cfg market = Some s_end /\
+      spec_run_rows (spec_base cfg sched) market (tr_allocs tr) = Some (st, [], days) /\
+      tr_fills tr = spec_fills days /\
+      Forall2 same_equity (tr_equity tr) (spec_equity days) /\
+      (cash_of pid (ss_broker s_end) == st_cash st)%Q /\
+      held_of (ss_broker s_end) = st_hold st /\
+      pending_of (ss_broker s_end) = st_pending st.
+Proof. exact session_follows_rules. Qed.
+Print Assumptions every_session_follows_the_rules_from_its_allocations.
 
 (** the pieces of that proof that are of independent interest *)
 
@@ -146,3 +166,19 @@ Proof.
   - assert (H : (inject_Z ((t / 43200) mod 5) / 4 == inject_Z ((t / 43200) mod 5) * (1 # 4))%Q) by field. rewrite H. lra.
 Qed.
 Print Assumptions quoted_premise_satisfiable.
+
+(** ... and the any-alpha statement is not vacuous: a universe-driven session over a dynamic universe whose
+    second member enters in the second week *)
+Definition cfg9 : config :=
+  mkCfg (18267 * 86400) (18285 * 86400 + 86340)
+        (DynamicU [("A"%string, Some (18260 * 86400)); ("B"%string, Some (18275 * 86400))])
+        (ASingle (1 # 2)%Q) (100000 # 1)%Q RDaily true (1 # 20)%Q (PercentFee (1 # 1000) 0) None None.
+Example any_alpha_hypotheses_are_satisfiable :
+  exists tr, wf_alpha cfg9 /\ run cfg9 mk8 = Ok tr /\ tr_noerr tr /\
+             (length (tr_allocs tr) = 15 /\ length (tr_fills tr) = 21)%nat.
+Proof.
+  eexists. split.
+  { unfold wf_alpha. cbn. constructor; [simpl; intros [H|[]]; discriminate|]. constructor; [intros []|constructor]. }
+  split; [vm_compute; reflexivity|]. split; [unfold tr_noerr; repeat constructor|]. split; vm_compute; reflexivity.
+Qed.
+Print Assumptions any_alpha_hypotheses_are_satisfiable.
